@@ -42,9 +42,13 @@ def parse(abbr: str, config: Config):
     if text:
         config.user_config['text'] = None
 
-    snippets(abbr, config)
-    walk(abbr, transform, config)
-    config.user_config['text'] = text
+    try:
+        snippets(abbr, config)
+        walk(abbr, transform, config)
+    finally:
+        # Always give the caller's config back as it was, also on errors
+        if text:
+            config.user_config['text'] = text
     return abbr
 
 def stringify(abbr: Abbreviation, config: Config):
